@@ -214,41 +214,73 @@ func genC15(m *M, budget int) {
 			}
 		}
 
-		// ---- element encoders: fresh results, independent of the element and of each other
-		e := secp256k1.Base().Multiply(secp256k1.NewScalar().SetUInt64(uint64(2 + m.rng.Intn(1000))))
-		if m.rng.Intn(5) == 0 {
-			e.Identity()
+		// ---- element encoders: fresh results, independent of the element and of each other.
+		// Every encoder is called twice (two results of one function must not share memory), the caller
+		// then writes all over the results and each encoder is called again: same bytes as before.
+		for _, ident := range []bool{false, true} {
+			e := secp256k1.Base().Multiply(secp256k1.NewScalar().SetUInt64(uint64(2 + m.rng.Intn(1000))))
+			if ident {
+				e.Identity()
+				m.class("element:identity")
+			}
+			type encFn struct {
+				name string
+				f    func() []byte
+			}
+			fns := []encFn{
+				{"Element.Encode", e.Encode},
+				{"Element.EncodeUncompressed", e.EncodeUncompressed},
+				{"Element.XCoordinate", e.XCoordinate},
+				{"Element.MarshalBinary", func() []byte { b, _ := e.MarshalBinary(); return b }},
+			}
+			var outs [][]byte
+			var refs [][]byte
+			for _, fn := range fns {
+				r1 := fn.f()
+				refs = append(refs, append([]byte(nil), r1...))
+				m.memCall(h, fn.name, nil, [][]byte{r1})
+				r2 := fn.f()
+				m.memCall(h, fn.name, nil, [][]byte{r2})
+				outs = append(outs, r1, r2)
+			}
+			for _, r := range outs {
+				scribble(r)
+			}
+			for i, fn := range fns {
+				m.probe(h, fn.name+" after writing into earlier results", refs[i], fn.f())
+			}
 		}
-		ref := e.Encode()
-		enc := e.Encode()
-		m.memCall(h, "Element.Encode", nil, [][]byte{enc})
-		unc := e.EncodeUncompressed()
-		m.memCall(h, "Element.EncodeUncompressed", nil, [][]byte{unc})
-		xc := e.XCoordinate()
-		m.memCall(h, "Element.XCoordinate", nil, [][]byte{xc})
-		mb, _ := e.MarshalBinary()
-		m.memCall(h, "Element.MarshalBinary", nil, [][]byte{mb})
-		for _, r := range [][]byte{enc, unc, xc, mb} {
-			scribble(r)
-		}
-		m.probe(h, "Element.Encode after writing into earlier results", ref, e.Encode())
 		ord := secp256k1.Order()
 		ordRef := append([]byte(nil), ord...)
 		m.memCall(h, "Order", nil, [][]byte{ord})
+		ord2 := secp256k1.Order()
+		m.memCall(h, "Order", nil, [][]byte{ord2})
 		scribble(ord)
+		scribble(ord2)
 		m.probe(h, "Order after writing into an earlier result", ordRef, secp256k1.Order())
 
-		// ---- scalar encoders
-		s := secp256k1.NewScalar().SetUInt64(m.rng.Uint64())
-		s.Multiply(s)
-		sref := s.Encode()
-		se := s.Encode()
-		m.memCall(h, "Scalar.Encode", nil, [][]byte{se})
-		sm, _ := s.MarshalBinary()
-		m.memCall(h, "Scalar.MarshalBinary", nil, [][]byte{sm})
-		scribble(se)
-		scribble(sm)
-		m.probe(h, "Scalar.Encode after writing into earlier results", sref, s.Encode())
+		// ---- scalar encoders (zero and non-zero values)
+		for _, zero := range []bool{false, true} {
+			s := secp256k1.NewScalar().SetUInt64(m.rng.Uint64())
+			s.Multiply(s)
+			if zero {
+				s.Zero()
+			}
+			sref := s.Encode()
+			se, se2 := s.Encode(), s.Encode()
+			m.memCall(h, "Scalar.Encode", nil, [][]byte{se})
+			m.memCall(h, "Scalar.Encode", nil, [][]byte{se2})
+			sm, _ := s.MarshalBinary()
+			sm2, _ := s.MarshalBinary()
+			m.memCall(h, "Scalar.MarshalBinary", nil, [][]byte{sm})
+			m.memCall(h, "Scalar.MarshalBinary", nil, [][]byte{sm2})
+			for _, r := range [][]byte{se, se2, sm, sm2} {
+				scribble(r)
+			}
+			m.probe(h, "Scalar.Encode after writing into earlier results", sref, s.Encode())
+			mb, _ := s.MarshalBinary()
+			m.probe(h, "Scalar.MarshalBinary after writing into earlier results", sref, mb)
+		}
 
 		// ---- decoders: the input slice is only read; the decoded value does not alias it
 		x, y := m.randPoint()
